@@ -338,6 +338,10 @@ def is_all_null_loop(repo, fi):
             mm = re.match(r'^not %s\.(\w+)\(\)$' % elem, norm(iff.test))
             if mm and len(iff.body) == 1 and isinstance(iff.body[0], ast.Return) and norm(iff.body[0].value) == 'False':
                 return slot, mm.group(1)
+            fixed = re.match(r'^not self\.%s\[(-?\d+)\]\.(\w+)\(\)$' % re.escape(slot), norm(iff.test))
+            if fixed and len(iff.body) == 1 and isinstance(iff.body[0], ast.Return) and norm(iff.body[0].value) == 'False':
+                # the loop runs over every entry and asks the same one each time
+                return 'DEFECT', 'the loop over self.%s tests entry [%s] on every round instead of entry [%s]: the other entries are never asked' % (slot, fixed.group(1), tv)
     return None
 
 
@@ -350,6 +354,9 @@ def witness_null_chain(repo, eng, r, key_prefix):
     a = is_all_null_loop(repo, f1)
     if a is None:
         r.undecided(key_prefix + ':CTxWitness.is_null', f1.site, 'unrecognised spelling of "all entries null"')
+        return False
+    if a[0] == 'DEFECT':
+        r.violated(key_prefix + ':CTxWitness.is_null', f1.site, 'CTxWitness.is_null: %s; a transaction whose other inputs carry witness data is taken to have none (serialised without it, hashed as its txid)' % a[1], sure=True)
         return False
     slot, meth = a
     elem_cls = eng.field_elem_class(txw, slot) or repo.get_class('bitcoin.core.CTxInWitness')
